@@ -69,6 +69,8 @@ def inner_counter_delta(kind, ev, circuits):
         else:
             dc += 1
             dj += 1
+    if k == "mock_batch" and ev[0] == "batch":
+        return len(ev[1]), 1          # the dedicated batch implementation counts one job per batch
     return dc, dj
 
 
